@@ -15,7 +15,7 @@ LEVEL_NOTE = ("Model fidelity is checked, not proved (correspondence: all (len,k
               "absence of deadlock in nested regions, are properties of rayon (trusted; observed under pools of 1–16 threads with "
               "a time cap). Floating-point re-association error of parallel sums and the drift of re-derived 1-D endpoints are "
               "measured against the statement's tolerances (1e-12, 1e-14), not proved.")
-OPS = {"split1", "split2", "tree1", "tree2"}
+OPS = {"split1", "split2", "tree1", "tree2", "steps_lens", "steps2d_lens"}
 TOL = {"split1": ("ulp", 2), "tree1": ("ulp", 2)}
 DEFAULT_TOL = ("exact",)
 RULE = ("family par/split: single splits of both producers for every len ≤ 24 (quick) / 64 (thorough) × every k ∈ 0..len+1; all proper "
